@@ -20,7 +20,7 @@ RULE = ("random DAGs (<= 7 providers, depth <= 4, fan-out <= 3, shared sub-depen
         "fingerprint = canonical DAG + overrides + failure + converter; trivial = graphs without any edge")
 ASSUMPTIONS = ["in-memory broker; virtual time; sync providers run through an inline executor (the asyncify wrapper is kept)"]
 EVAL_COUNTER = "invocations_judged"
-REQUIRED = ["invocations_judged", "graphs_with_shared_subdeps", "overrides_applied", "provider_failures", "declaration_rejections", "msg_leaves"]
+REQUIRED = ["invocations_judged", "graphs_with_shared_subdeps", "overrides_applied", "provider_failures", "declaration_rejections", "msg_leaves", "concurrent_twins"]
 CASE_TIMEOUT = 120
 
 
@@ -79,7 +79,8 @@ async def graphs_scenario(loop, case, out, stats, fps, samples):
             deps = []
             called = []
             for i, nd in enumerate(nodes):
-                prov = make_provider(nd["name"], [(f"s{j}", deps[j]) for j in nd["subs"]], is_async=nd["async"], extra_default=nd["plain"], record=called, msg_leaf=nd["msg"])
+                prov = make_provider(nd["name"], [(f"s{j}", deps[j]) for j in nd["subs"]], is_async=nd["async"], extra_default=nd["plain"], record=called, msg_leaf=nd["msg"],
+                                     suspend=rnd.choice([0.0, 0.0, 0.01, 0.05]))
                 deps.append(Depends(prov))
             roots = sorted(rnd.sample(range(len(nodes)), rnd.randint(1, min(3, len(nodes)))))
             plain = []
@@ -108,7 +109,18 @@ async def graphs_scenario(loop, case, out, stats, fps, samples):
                 await Job(p["actor"], id_=id_, args=p["payload"], retries=1, store_result=False, _connection=w.conn).enqueue()
                 ids.append(id_)
             phase_jobs.append(ids)
+            if tag == "a":
+                # more messages of the same actors, in flight at the same time: per-message values must not leak across messages
+                twins = []
+                for rep in range(2):
+                    for pi, p in enumerate(plans):
+                        id_ = f"t{rep}{pi:02d}"
+                        await Job(p["actor"], id_=id_, args=p["payload"], retries=1, store_result=False, _connection=w.conn).enqueue()
+                        twins.append((pi, id_))
+                phase_twins.extend(twins)
             return ids
+
+        phase_twins = []
 
         # round 1: plain graphs; round 2: after overrides; round 3: with a failing provider
         await enqueue_round("a")
@@ -153,8 +165,10 @@ async def graphs_scenario(loop, case, out, stats, fps, samples):
         # ---- monitor
         by_id = {rc["id"]: rc for rc in received}
         counts = collections.Counter(rc["id"] for rc in received)
-        for phase, ids in zip("abc", phase_jobs):
-            for pi, id_ in enumerate(ids):
+        jobs_iter = [(phase, pi, id_) for phase, ids in zip("abc", phase_jobs) for pi, id_ in enumerate(ids)] + [("a", pi, id_) for pi, id_ in phase_twins]
+        stats["concurrent_twins"] += len(phase_twins)
+        for phase, pi, id_ in jobs_iter:
+            if True:
                 p = plans[pi]
                 ov = {} if phase == "a" else overrides[pi]
                 shared = len([j for nd in p["nodes"] for j in nd["subs"]]) > len({j for nd in p["nodes"] for j in nd["subs"]})
